@@ -533,3 +533,61 @@ def run_conditions(prog, rep):
         raise AnalysisBroken('R-VALID-COND: getter forms of must/should not found (%s)' % sorted(seen))
     rep.extra['condition_instantiations'] = seen
     return rule
+
+
+def run_loop_fresh(prog, rep):
+    """per-element working data is fresh in every iteration: a container declared outside a loop and refilled inside it through an
+    appending out-parameter (never cleared) still starts with the previous element's content"""
+    sem = Sem(prog)
+    rule = rep.rule('R-VALID-FRESH', 'inside element loops of the checks, per-element containers are assigned or cleared in every iteration (no appending refill of a container declared outside the loop)', floor=1)
+    from ..sem import split_sig
+    n = 0
+    for f in sorted(prog.funcs.values(), key=lambda f: (f.file, f.line)):
+        if f.body is None or not f.q.startswith('nix::valid::'):
+            continue
+        lv = sem.local_vars(f)
+        for lp in [x for x in f.walk() if x.k in ('for', 'rangefor', 'while')]:
+            inside = set(id(x) for x in lp.walk())
+            for c in lp.walk():
+                if c.k != 'call' or not c.callee or c.get('op'):
+                    continue
+                pts = split_sig(c.callee.get('sig') or '()')
+                tg = prog.resolve_call(c)
+                for i, a in enumerate(real_args(c)):
+                    if a is None or i >= len(pts):
+                        continue
+                    pt = pts[i]
+                    if not (pt.endswith('&') and not pt.endswith('&&') and not pt.startswith('const ')) or 'vector' not in pt:
+                        continue
+                    x = unwrap(a)
+                    if x.k != 'ref' or x.decl.get('kind') != 'local':
+                        continue
+                    v = lv.get(x.decl.get('lid'))
+                    if v is None or id(v) in inside:
+                        continue       # declared inside the loop: fresh by construction
+                    n += 1
+                    key = '%s|%s@%s' % (re.sub(r'<.*', '', f.q), v.get('name'), c.callee.get('name'))
+                    # reset inside the loop before the call?
+                    reset = False
+                    for m in sem.mods(f).get(x.decl.get('lid'), []):
+                        if id(m) in inside and m.id < c.id and (m.k == 'assign' or (m.k == 'call' and (m.get('op') == '=' or (m.callee or {}).get('name') in ('clear', 'assign', 'resize')))):
+                            reset = True
+                    # does the callee overwrite or only append?
+                    overwrites = None
+                    if tg and tg[0].body is not None and i < len(tg[0].params):
+                        g = tg[0]
+                        plid = g.params[i]['lid']
+                        ops = []
+                        for y in g.walk():
+                            if y.k == 'assign' or (y.k == 'call' and y.get('op') == '='):
+                                t0 = unwrap(y.c[0])
+                                if t0.k == 'ref' and t0.decl.get('lid') == plid:
+                                    ops.append('=')
+                            elif y.k == 'call' and y.get('member') and y.c and unwrap(y.c[0]).k == 'ref' and unwrap(y.c[0]).decl.get('lid') == plid:
+                                ops.append((y.callee or {}).get('name'))
+                        overwrites = any(o in ('=', 'clear', 'assign', 'resize', 'swap') for o in ops)
+                    okc = reset or overwrites is True
+                    rule.check(okc, key, rep.where(c), f.label(), '%s is %s' % (v.get('name'), 'reset in the loop' if reset else 'overwritten by %s' % c.callee.get('name')),
+                               '%s is declared outside the loop and %s only appends to it: from the second element on it still begins with the entries of the first element, so the verdict for later elements is taken from the first one' % (v.get('name'), c.callee.get('name')))
+    rule.ok('valid|scan', 'src/valid', 'nix::valid::*', '%d out-parameter refills inside element loops' % n, nontrivial=False)
+    return rule
